@@ -14,7 +14,7 @@
 From Coq Require Import List Arith Bool.
 Import ListNotations.
 From Onet Require Import Net.RouterClose Net.RouterCloseProofs Net.CloseSeq Net.CloseSeqProofs.
-From Onet Require Import Corr.C10 Net.C10CheckProofs.
+From Onet Require Import Corr.C10 Net.C10CheckProofs Net.CloseConc Net.CloseConcProofs.
 
 (* J1-J4 and their companions hold in every reachable state, for both variants *)
 Theorem c10_invariants : forall fx acts s, run fx init acts = Some s -> Inv fx s.
@@ -211,3 +211,91 @@ Theorem c10_sexec_reachable : forall insts ms,
   exists acts, crun code_fixed_F41 code_fixed_F42 (cinit insts) acts = Some (sexec insts ms).
 Proof. exact sexec_reachable. Qed.
 Print Assumptions c10_sexec_reachable.
+
+(* ---- k concurrent callers of Server.Close() and the Start() goroutine ---------- *)
+(* [krun cta del_db fx (kinit started r0 n k) acts] ranges over every interleaving of k >= 0
+   calls of Server.Close() with Start()'s receive on the unbuffered closeitChannel, the Stop
+   threads of the embedded router transition system and its handler goroutines
+   (Net/CloseConc.v).  r0 is any router state satisfying the invariants in which nobody has
+   called Stop yet; cta = false is server.go as it is, cta = true the check-then-act variant
+   (lock released between reading IsStarted and the send); del_db = the temporary-database
+   configuration in which a second closeDatabase returns the "removing file" error. *)
+
+(* (1) safety, both variants: at most one value is ever sent on closeitChannel, Start()
+   returns exactly when it has been sent (at most once), no step is a panic *)
+Theorem c10_concurrent_close_safety : forall cta del_db fx started r0 n k acts s,
+  Inv fx r0 -> stops r0 = [] ->
+  krun cta del_db fx (kinit started r0 n k) acts = Some s ->
+  sent s <= 1 /\ (start s = StReturned <-> sent s = 1) /\ crashed (router s) = false.
+Proof. exact conc_safety. Qed.
+Print Assumptions c10_concurrent_close_safety.
+
+(* (2) deadlock freedom of the code as it is: in every reachable state in which no action
+   is enabled every caller has returned, and Start() has returned if the server was started *)
+Theorem c10_concurrent_close_deadlock_free : forall del_db fx started r0 n k acts s,
+  Inv fx r0 -> stops r0 = [] ->
+  krun false del_db fx (kinit started r0 n k) acts = Some s ->
+  (forall a, kstep false del_db fx s a = None) ->
+  (forall i p, nth_error (callers s) i = Some p -> returned p = true) /\
+  (k >= 1 -> started = true -> start s = StReturned).
+Proof. exact conc_deadlock_free. Qed.
+Print Assumptions c10_concurrent_close_deadlock_free.
+
+(* (3) termination: every step strictly decreases a natural-number measure (both variants),
+   so a run is never longer than the measure of its first state, and every run of the code
+   as it is extends to one in which all calls have returned *)
+Theorem c10_concurrent_close_measure : forall cta del_db fx s a s',
+  kstep cta del_db fx s a = Some s' -> kmeas s' < kmeas s.
+Proof. exact conc_measure. Qed.
+Print Assumptions c10_concurrent_close_measure.
+
+Theorem c10_concurrent_close_runs_finite : forall cta del_db fx acts s s',
+  krun cta del_db fx s acts = Some s' -> length acts + kmeas s' <= kmeas s.
+Proof. exact conc_runs_finite. Qed.
+Print Assumptions c10_concurrent_close_runs_finite.
+
+Theorem c10_concurrent_close_terminates : forall del_db fx started r0 n k,
+  Inv fx r0 -> stops r0 = [] ->
+  forall acts s, krun false del_db fx (kinit started r0 n k) acts = Some s ->
+  exists acts' s', krun false del_db fx s acts' = Some s' /\
+                   (forall i p, nth_error (callers s') i = Some p -> returned p = true).
+Proof. exact conc_terminates. Qed.
+Print Assumptions c10_concurrent_close_terminates.
+
+(* (4) the final state does not depend on the number of callers or on the interleaving:
+   once all calls have returned, IsStarted is cleared, the lock free, the router closed with
+   its listener off, its wait group zero and every registered connection closed, the
+   websocket stopped, the overlay closed and empty, the database closed - the state a
+   single Close() (k = 1) leaves; and the calls' results are those of sequential calls *)
+Theorem c10_concurrent_close_final_state : forall cta del_db fx started r0 n k acts s,
+  Inv fx r0 -> stops r0 = [] -> k >= 1 ->
+  krun cta del_db fx (kinit started r0 n k) acts = Some s ->
+  (forall i p, nth_error (callers s) i = Some p -> returned p = true) ->
+  all_closed_k s /\
+  (if del_db then lsum is_ok (callers s) = 1 else lsum is_ok (callers s) = length (callers s)).
+Proof. exact conc_final. Qed.
+Print Assumptions c10_concurrent_close_final_state.
+
+(* (5) the check-then-act variant hangs: two callers both read IsStarted = true, the first
+   wakes Start() up and completes, the second is left blocked on closeitChannel in a state
+   with no enabled action *)
+Theorem c10_concurrent_close_check_then_act_refuted :
+  exists s, krun true true true (kinit true init 0 2) cta_witness = Some s /\
+            callers s = [KRet Ok; KSendPc] /\ start s = StReturned /\ sent s = 1 /\
+            forall a, kstep true true true s a = None.
+Proof. exact conc_check_then_act_refuted. Qed.
+Print Assumptions c10_concurrent_close_check_then_act_refuted.
+
+Example c10_concurrent_close_example :
+  krun false true true (kinit true init 0 2) [KStartArrive; KLockRead 0; KLockRead 1] = None /\
+  exists s, krun false true true (kinit true init 0 2)
+                 ([KStartArrive; KLockRead 0; KSend 0; KClear 0; KLockRead 1]) = Some s /\
+            callers s = [KStopCall; KStopCall] /\ flag s = false.
+Proof. exact conc_witness_original. Qed.
+Print Assumptions c10_concurrent_close_example.
+
+(* the model run the closerace observations are compared with is a run of this system *)
+Theorem c10_concurrent_close_sched_reachable : forall cta del_db fx fuel s,
+  exists acts, krun cta del_db fx s acts = Some (sched cta del_db fx fuel s).
+Proof. exact sched_reachable. Qed.
+Print Assumptions c10_concurrent_close_sched_reachable.
